@@ -27,4 +27,4 @@ For each mutant k = 1..{n}:
   4. Save into {wt}/mutants/m<k>/ : `patch.diff` (output of `git diff` for the LIBRARY change only, applicable with `git apply` at the repo root), `demo.rs` (the demonstration test file, plus a first-line comment saying where it must be placed, e.g. `// place at crates/tower-resilience-retry/tests/mutant_demo_1.rs`), and `meta.json` with keys: property, summary (what the change does), needs (what specific condition is needed to manifest), files (touched files), test_cmds (the exact commands you ran for existing tests and for the demo), existing_tests_pass (bool), demo_fails_with_patch (bool), demo_passes_without_patch (bool).
   5. Revert the tree to clean before the next mutant.
 
-Do not commit anything. When done, leave the worktree clean (only {wt}/mutants/ and {wt}/target extra) and reply with a short summary listing each mutant: the file/lines changed, the mechanism, and what it needs to manifest. If a mutant attempt turns out to be caught by existing tests, discard it and try another idea. If you discover that the UNMODIFIED code already violates the property in some way, mention it briefly at the end but still deliver mutants that introduce NEW violations distinct from that.""")
+Do not commit anything and NEVER use `git stash` (the stash is shared between worktrees of the same repository); to get a clean tree use `git checkout -- .`. When done, leave the worktree clean (only {wt}/mutants/ and {wt}/target extra) and reply with a short summary listing each mutant: the file/lines changed, the mechanism, and what it needs to manifest. If a mutant attempt turns out to be caught by existing tests, discard it and try another idea. If you discover that the UNMODIFIED code already violates the property in some way, mention it briefly at the end but still deliver mutants that introduce NEW violations distinct from that.""")
